@@ -56,6 +56,8 @@ pub fn run_case(toks: &[&str], em: &mut Emitter) {
                 }
                 // from now on the transport hands out at most k bytes per read (0: whatever is asked for)
                 'C' => { s.pipe.0.borrow_mut().rcap = op[1..].parse().unwrap(); Ok(()) }
+                // from now on the transport accepts at most k bytes per write (0: everything)
+                'S' => { s.pipe.0.borrow_mut().wcap = op[1..].parse().unwrap(); Ok(()) }
                 'T' => s.client.try_write(parse_event(&op[1..]).unwrap()).map_err(|_| ()),
                 _ => s.client.write(parse_event(op).unwrap()).map_err(|_| ()),
             };
@@ -213,6 +215,8 @@ pub fn generate_c11(thorough: bool, seed: u64, part: (usize, usize), em: &mut Em
         for _ in 0..3 { ops.push("P10:20:0:0".into()); hist.push("I".into()); }
         ops.push("P10:20:1:1".into()); hist.push("I".into()); ops.push("P10:20:1:0".into()); hist.push("I".into()); ops.push("P10:20:0:0".into()); hist.push("I".into());
         for _ in 0..2 { ops.push("K30:1".into()); hist.push("I".into()); }
+        // a transport that takes a few bytes per write call: every frame still arrives whole, once
+        for k in &[1u32, 3, 7, 30, 0] { ops.push(format!("S{}", k)); hist.push("CH".into()); ops.push("P7:9:1:1".into()); hist.push("I".into()); ops.push("K31:0".into()); hist.push("I".into()); ops.push("TP1:2:0:0".into()); hist.push("J".into()); }
         ops.push("B".into()); hist.push("X".into()); ops.push("TB".into()); hist.push("X".into());
         emit(em, 1004, 800, 600, 0x409, "rdp-rs", &ops, Some(&hist));
     }
